@@ -80,7 +80,7 @@ var (
 		"v", "w", "x", "k=v", "j=v", "k=v,w", "k=x,w", "v,w", "v,x", "k:v", "j:", "^v", "^k",
 		"5", "5:", ":5", "2:8", "n=2:8", "n=5", "n=9:", "-3:3",
 		"5kb", "sz=5kb", "5120b", "sz=1mb:", "1b:2kb", "4kb:", ":3ms", "t=1s:", "2000us:4ms", "t=3000us",
-		"sz=5", "n=5kb",
+		"sz=5", "n=5kb", "1mb:", ":1mb",
 		// bounds in a unit coarser than the label's, next to label values that are not whole multiples of it
 		":1s", "1s", "sz=:5kb", ":2kb",
 		// a key-restricted expression whose value part contains '=' itself (the key ends at the first '=')
@@ -100,7 +100,7 @@ type labelSet struct {
 	num  map[string][]int64
 }
 
-var numUnits = map[string]string{"sz": "bytes", "t": "milliseconds"}
+var numUnits = map[string]string{"sz": "bytes", "t": "milliseconds", "kb": "kilobytes"}
 
 var labelSets = []labelSet{
 	{name: "-"},
@@ -108,6 +108,10 @@ var labelSets = []labelSet{
 	{name: "k:v,w", str: map[string][]string{"k": {"v", "w"}}},
 	{name: "k:w j:v", str: map[string][]string{"k": {"w"}, "j": {"v"}}},
 	{name: "j:w", str: map[string][]string{"j": {"w"}}},
+	// the same number under two keys of different units: 2048 bytes and 2048 kilobytes lie on opposite
+	// sides of 1mb (each label is judged in its own unit)
+	{name: "sz:2048", num: map[string][]int64{"sz": {2048}}},
+	{name: "kb:2048", num: map[string][]int64{"kb": {2048}}},
 	// one expression of a list matches two labels, another none: every expression needs its own match
 	{name: "k:v j:v", str: map[string][]string{"k": {"v"}, "j": {"v"}}},
 	{name: "k:v=w", str: map[string][]string{"k": {"v=w"}}},
